@@ -33,9 +33,23 @@ Theorem C11_model_distance_none : forall o, qgood o -> forall fuel ta tb, In ta 
   dist_anc fuel o ta tb = Ok None -> t_id ta <> t_id tb /\ ~ anc (o_arena o) (t_id ta) (t_id tb).
 Proof. exact dist_anc_none. Qed.
 
+(* path_to_ancestor: the returned list is a chain of parent links from the term that ends in the
+   target ... *)
+Theorem C11_model_path_is_a_chain : forall o (G : qgood o) fuel ta tb l, In ta (ar_terms (o_arena o)) ->
+  path_anc fuel o ta tb = Ok (Some l) -> links o (t_id ta) l /\ last l (t_id ta) = t_id tb.
+Proof. exact path_anc_sound. Qed.
+
+(* ... of minimal length, and a path is returned for every reachable target *)
+Theorem C11_model_path_is_shortest : forall o (G : qgood o) fuel ta tb r, In ta (ar_terms (o_arena o)) ->
+  path_anc fuel o ta tb = Ok r ->
+  forall n, chain (o_arena o) (t_id ta) n (t_id tb) -> exists l, r = Some l /\ (length l <= n)%nat.
+Proof. exact path_anc_minimal. Qed.
+
 Print Assumptions C11_distance_is_a_chain_length.
 Print Assumptions C11_distance_is_minimal.
 Print Assumptions C11_chain_is_walk.
 Print Assumptions C11_model_distance_is_a_chain.
 Print Assumptions C11_model_distance_is_minimal.
 Print Assumptions C11_model_distance_none.
+Print Assumptions C11_model_path_is_a_chain.
+Print Assumptions C11_model_path_is_shortest.
